@@ -371,9 +371,13 @@ def _model_part(draw, sh):
 
 def _point_part(draw, sh, plain):
     grid, mode = sh["grid"], sh["branch_mode"]
+    labels = draw(st.sampled_from([None] * 4 + ["shift", "perm", "gaps", "text"]))  # row labels of the table (not content)
+    label_k = draw(st.integers(0, 1000))
     data = draw(S.iso_data(min_points=1, max_points=6 if plain else 12, desorption=True, grid=grid))
     n = len(data["pressure"])
     part = {"pressure": data["pressure"], "loading": data["loading"], "grid": grid, "branch_mode": mode}
+    if labels:
+        part["labels"], part["label_k"] = labels, label_k
     if mode == "explicit":
         part["branch"] = data["branch_true"]
     elif mode == "interleaved":
@@ -462,6 +466,19 @@ def _replace_sep(d, sep):
         d["adsorbate"] = "nitrogen"  # e.g. '1,2-dichloroethane': a name containing the separator is outside the CSV domain
 
 
+def _row_labels(kind, k, n):
+    """Row labels a table keeps after sorting / filtering / concatenating without reset_index."""
+    if not kind:
+        return None
+    if kind == "shift":
+        return [i + 1 + k % 9 for i in range(n)]
+    if kind == "perm":
+        return np.random.default_rng(k).permutation(n).tolist()
+    if kind == "gaps":
+        return [2 * i + (k % 3) + (i // 2) for i in range(n)]
+    return [f"r{(7 * i + k) % 101}_{i}" for i in range(n)]
+
+
 # ---- building ------------------------------------------------------------------------------------------------------------
 def build(desc):
     K.reset_registries()
@@ -487,11 +504,12 @@ def build(desc):
         for c, v in (p.get("extra") or {}).items():
             data[c] = list(v)
         mode = p["branch_mode"]
+        index = _row_labels(p.get("labels"), p.get("label_k", 0), len(p["pressure"]))
         if mode in ("explicit", "interleaved"):
             data["branch"] = [int(b) for b in p["branch"]]
-            return pygaps.PointIsotherm(isotherm_data=pd.DataFrame(data), pressure_key=pk, loading_key=lk, **kwargs)
+            return pygaps.PointIsotherm(isotherm_data=pd.DataFrame(data, index=index), pressure_key=pk, loading_key=lk, **kwargs)
         branch = {"guess": "guess", "all_des": "des", "all_ads": "ads"}[mode]
-        return pygaps.PointIsotherm(isotherm_data=pd.DataFrame(data), pressure_key=pk, loading_key=lk, branch=branch,
+        return pygaps.PointIsotherm(isotherm_data=pd.DataFrame(data, index=index), pressure_key=pk, loading_key=lk, branch=branch,
                                     **kwargs)
     m = desc["model"]
     if m["route"] == "fit":
